@@ -19,7 +19,7 @@ def load_harnesses():
         return []
 
 
-QUICK_BUDGET_S = 600   # summed measured CBMC seconds per property in the quick tier (run 8-way parallel, both modes)
+QUICK_BUDGET_S = 900   # summed measured CBMC seconds per property in the quick tier (run 8-way parallel, both modes)
 A1_WITH = ('C01', 'C06')
 A1_THOROUGH = ('C02', 'C03', 'C05', 'C07', 'C08', 'C09', 'C10', 'C11', 'C13', 'C15', 'C16', 'C17', 'C18', 'C19', 'C20', 'C04')
 
@@ -34,6 +34,10 @@ def select(pid=None, tier='quick', fn_key=None, seed=0):
         rest = [h for h in out if not (h.get('expected') == 'fails' or h.get('always'))]
         rnd = random.Random(seed)
         rnd.shuffle(rest)
+        # harnesses that are the only decider of their functions (no Verus-proved contract on any of the functions
+        # they name) come first; harnesses that merely cross-check Verus-proved functions fill the remaining budget
+        pk = _proved_generic_keys()
+        rest.sort(key=lambda h: 1 if (h.get('fn_keys') and all(_gk(k) in pk for k in h['fn_keys'])) else 0)
         spent = sum(h.get('est_s', 5) for h in keep)
         for h in rest:
             c = max(h.get('est_s', 5), 0.2)
@@ -43,6 +47,27 @@ def select(pid=None, tier='quick', fn_key=None, seed=0):
             spent += c
         out = sorted(keep, key=lambda h: h['name'])
     return out
+
+
+def _gk(key):
+    k = re.sub(r'\b(BUint|BInt)D(8|16|32)\b', r'\1', key)
+    k = re.sub(r'\bdigit::u(8|16|32|64)::', 'digit::', k)
+    return k.replace(' ', '')
+
+
+_pgk = None
+
+
+def _proved_generic_keys():
+    global _pgk
+    if _pgk is None:
+        _pgk = set()
+        try:
+            for b in json.load(open(os.path.join(RUN.VERIF, 'baseline', 'proved.json')))['proved']:
+                _pgk.add(_gk(b.split('/', 3)[3]))
+        except Exception:
+            pass
+    return _pgk
 
 
 def _select_all(pid=None, tier='quick', fn_key=None):
@@ -201,7 +226,7 @@ def run_property(pid, tier, seed=0):
     if not hs:
         return out
     cdir = RUN.cache_dir()
-    ckey = os.path.join(cdir, f'kani_{pid}_{tier}_{seed}_{kani_hash()[:12]}.json')
+    ckey = os.path.join(cdir, f"kani_{pid}_{tier}_{seed}_{kani_hash()[:12]}_{RUN.sha(','.join(h['name'] for h in hs))[:10]}.json")
     if os.path.exists(ckey):
         try:
             return json.load(open(ckey))
